@@ -1301,7 +1301,7 @@ def _spawn_special(names: List[str], tag: str) -> List[Tuple[str, Any, str]]:
         if os.path.exists(out):
             os.unlink(out)
         p = subprocess.Popen([vlib.PY, "-m", "harness.worker_proto", "--case", name, out], cwd=str(vlib.VERIF),
-                             stdout=subprocess.DEVNULL, stderr=subprocess.DEVNULL)
+                             stdout=subprocess.DEVNULL, stderr=subprocess.DEVNULL, start_new_session=True)
         procs.append((name, p, out))
     return procs
 
@@ -1314,7 +1314,11 @@ def _collect_special(procs: List[Tuple[str, Any, str]], limit: float) -> List[Di
         try:
             p.wait(max(1.0, deadline - time.time()))
         except Exception:  # noqa: BLE001
-            p.kill()
+            try:
+                import signal
+                os.killpg(p.pid, signal.SIGKILL)          # the observer, its workers, its manager and its Flight server
+            except Exception:  # noqa: BLE001
+                p.kill()
             err = f"special case {name}: the observing subprocess did not end within {limit:.0f} s"
         if err is None:
             try:
